@@ -730,3 +730,367 @@ Proof.
   - apply ProofsTsort.tsort_no_fuel.
   - intros o. apply step_no_fuel_l. exact Hinv.
 Qed.
+
+(* ====================================================================== *)
+(* Abs.v *)
+(* ================= abstraction commutes with the operations ================= *)
+Lemma abs_add : forall g p, index_inv g -> rg_eq (abs (add_node_if_none g p)) (r_add (abs g) p).
+Proof.
+  intros g p Hinv. split.
+  - intros x. cbn [abs V r_add]. rewrite (add_node_ids g p Hinv x), set_insert_In. cbn [In]. split; intros [H|H]; auto.
+  - intros e. cbn [abs E r_add]. change (In e (edges_of (nodes (add_node_if_none g p))) <-> In e (edges_of (nodes g))).
+    rewrite add_node_edges. tauto.
+Qed.
+
+
+Lemma abs_inc : forall g r d x, index_inv g -> inc_ref g r d = Ok x ->
+  inc_code (fst x) = fst (r_inc (abs g) r d) /\ rg_eq (abs (snd x)) (snd (r_inc (abs g) r d)).
+Proof.
+  intros g r d x Hinv H. destruct (inc_ref_spec g r d Hinv) as [H1 [H2 H3]].
+  pose proof (abs_add g r Hinv) as Hadd. unfold r_inc.
+  destruct (Z.eq_dec r d) as [Heq|Hne].
+  - rewrite (H1 Heq) in H. inversion H; subst x. subst d. rewrite Z.eqb_refl. cbn [fst snd inc_code]. auto.
+  - assert (Hne' := Hne). apply Z.eqb_neq in Hne'. rewrite Hne'. cbn [r_add E].
+    destruct (reach_dec (edges_of (nodes g)) d r) as [Hr|Hr].
+    + rewrite (H2 Hne Hr) in H. inversion H; subst x.
+      assert (Hb : reachb (E (abs g)) d r = true) by (apply reachb_spec; exact Hr).
+      rewrite Hb. cbn [fst snd inc_code]. auto.
+    + destruct (H3 Hne Hr) as [g2 [Hg2 [Hi2 [Hids He]]]]. rewrite Hg2 in H. inversion H; subst x.
+      assert (Hb : reachb (E (abs g)) d r = false).
+      { destruct (reachb (E (abs g)) d r) eqn:Hb; [|reflexivity]. apply reachb_spec in Hb. contradiction. }
+      rewrite Hb. cbn [fst snd inc_code]. split; [reflexivity|]. split; cbn [V E abs].
+      * intros y. rewrite Hids. apply (proj1 Hadd y).
+      * intros e. change (In e (edges_of (nodes g2)) <-> In e (if meme (r, d) (edges_of (nodes g)) then edges_of (nodes g) else edges_of (nodes g) ++ [(r, d)])).
+        rewrite He. destruct (meme (r, d) (edges_of (nodes g))) eqn:Hm.
+        -- apply meme_In in Hm. split; [intros [->|Hx]; assumption|auto].
+        -- rewrite in_app_iff. cbn [In]. split; [intros [Hx|Hx]; auto|intros [Hx|[Hx|[]]]; auto].
+Qed.
+
+Lemma find_remove_nth : forall ns p i a, NoDup (map nid ns) -> position p (map nid ns) = Some i ->
+  find_node (remove_nth ns i) a = if Z.eqb p a then None else find_node ns a.
+Proof.
+  induction ns as [|n r IH]; intros p i a Hnd Hp; cbn [map position] in Hp; [discriminate|].
+  cbn [map] in Hnd. inversion Hnd as [|? ? Hn Hr]; subst.
+  destruct (Z.eqb (nid n) p) eqn:Hnp.
+  - apply Z.eqb_eq in Hnp. inversion Hp; subst i. cbn [remove_nth]. unfold find_node at 2. cbn [find].
+    fold (find_node r a). destruct (Z.eqb p a) eqn:Hpa.
+    + apply Z.eqb_eq in Hpa. subst a. apply find_node_None. rewrite <- Hnp. exact Hn.
+    + rewrite Hnp, Hpa. reflexivity.
+  - destruct (position p (map nid r)) as [i'|] eqn:Hpr; cbn [option_map] in Hp; [|discriminate].
+    inversion Hp; subst i. cbn [remove_nth]. unfold find_node. cbn [find].
+    fold (find_node (remove_nth r i') a). fold (find_node r a). rewrite (IH p i' a Hr Hpr).
+    destruct (Z.eqb (nid n) a) eqn:Hna; [|reflexivity].
+    apply Z.eqb_eq in Hna. subst a. rewrite Z.eqb_sym, Hnp. reflexivity.
+Qed.
+Lemma find_map : forall (f : node -> node) ns a, (forall n, nid (f n) = nid n) ->
+  find_node (map f ns) a = option_map f (find_node ns a).
+Proof.
+  intros f ns a Hf. induction ns as [|n r IH]; [reflexivity|]. unfold find_node. cbn [map find]. rewrite Hf.
+  destruct (Z.eqb (nid n) a); [reflexivity|]. exact IH.
+Qed.
+
+Lemma remove_find : forall g p g' a, index_inv g -> remove g p = Ok g' ->
+  find_node (nodes g') a = if Z.eqb p a then None else option_map (strip_dep p) (find_node (nodes g) a).
+Proof.
+  intros g p g' a [Hnd Hi] H. unfold remove in H. destruct (idx_get (index g) p) as [i|] eqn:Hg.
+  - destruct (Nat.ltb i (length (nodes g))); [|discriminate]. inversion H; subst g'. cbn [nodes].
+    rewrite find_map by reflexivity. rewrite Hi in Hg. rewrite (find_remove_nth _ p i a Hnd Hg).
+    destruct (Z.eqb p a); reflexivity.
+  - inversion H; subst g'. cbn [nodes]. rewrite find_map by reflexivity.
+    destruct (Z.eqb p a) eqn:Hpa; [|reflexivity]. apply Z.eqb_eq in Hpa. subst a.
+    rewrite Hi in Hg. apply position_None in Hg. apply find_node_None in Hg. rewrite Hg. reflexivity.
+Qed.
+
+Lemma abs_remove : forall g p g', index_inv g -> remove g p = Ok g' -> rg_eq (abs g') (r_remove (abs g) p).
+Proof.
+  intros g p g' Hinv H. pose proof (index_inv_remove g p g' Hinv H) as Hinv'.
+  assert (Hfind := fun a => remove_find g p g' a Hinv H).
+  split.
+  - intros y. cbn [abs V r_remove]. rewrite set_remove_In.
+    destruct (find_node (nodes g') y) eqn:Hf.
+    + split; [intros _|intros _; apply find_node_Some in Hf; destruct Hf as [Hn <-]; apply in_map; exact Hn].
+      rewrite Hfind in Hf. destruct (Z.eqb p y) eqn:Hpy; [discriminate|]. apply Z.eqb_neq in Hpy.
+      destruct (find_node (nodes g) y) as [m|] eqn:Hm; [|discriminate]. split; [|congruence].
+      apply find_node_Some in Hm. destruct Hm as [Hn <-]. apply in_map. exact Hn.
+    + split; [intros Hy; apply find_node_None in Hf; contradiction|]. intros [Hy Hne]. exfalso.
+      rewrite Hfind in Hf. apply Z.eqb_neq in Hne. rewrite Z.eqb_sym in Hne. rewrite Hne in Hf.
+      destruct (find_node (nodes g) y) eqn:Hm; [discriminate|]. apply find_node_None in Hm. contradiction.
+  - intros [a x]. cbn [abs E r_remove]. rewrite filter_In. cbn [fst snd].
+    change (In (a, x) (edges_of (nodes g')) <-> In (a, x) (edges_of (nodes g)) /\ negb (Z.eqb a p) && negb (Z.eqb x p) = true).
+    rewrite (edges_find _ a x (proj1 Hinv')), (edges_find _ a x (proj1 Hinv)), Hfind.
+    rewrite andb_true_iff, !negb_true_iff, !Z.eqb_neq. rewrite (Z.eqb_sym p a).
+    destruct (Z.eqb a p) eqn:Hap.
+    + apply Z.eqb_eq in Hap. split; [intros [n [Hn _]]; discriminate|]. intros [_ [Hc _]]. congruence.
+    + apply Z.eqb_neq in Hap. destruct (find_node (nodes g) a) as [m|]; cbn [option_map].
+      * split.
+        -- intros [n [Hn Hx]]. inversion Hn; subst n. cbn [strip_dep ndeps] in Hx. apply set_remove_In in Hx.
+           destruct Hx as [Hx Hne]. split; [exists m; auto|auto].
+        -- intros [[n [Hn Hx]] [_ Hne]]. inversion Hn; subst n. eexists. split; [reflexivity|].
+           cbn [strip_dep ndeps]. apply set_remove_In. auto.
+      * split; [intros [n [Hn _]]; discriminate|intros [[n [Hn _]] _]; discriminate].
+Qed.
+
+Lemma dedup_e_In : forall l e, In e (dedup_e l) <-> In e l.
+Proof.
+  intros l e. unfold dedup_e.
+  assert (Hg : forall l acc, In e (fold_left (fun acc e0 => if meme e0 acc then acc else acc ++ [e0]) l acc) <-> In e acc \/ In e l).
+  { clear l. induction l as [|x l IH]; intros acc; cbn [fold_left In]; [tauto|]. rewrite IH.
+    destruct (meme x acc) eqn:Hm.
+    - apply meme_In in Hm. split; [tauto|]. intros [H|[H|H]]; auto. subst. auto.
+    - rewrite in_app_iff. cbn [In]. tauto. }
+  rewrite Hg. cbn [In]. tauto.
+Qed.
+
+Lemma rename_deps_In : forall a b ds y, a <> b ->
+  (In y (set_remove a (if memz a ds then set_insert b ds else ds)) <-> exists d, In d ds /\ ren a b d = y).
+Proof.
+  intros a b ds y Hab. rewrite set_remove_In. unfold ren. split.
+  - intros [Hy Hne]. destruct (memz a ds) eqn:Hm.
+    + apply memz_In in Hm. apply set_insert_In in Hy. destruct Hy as [->|Hy].
+      * exists a. rewrite Z.eqb_refl. auto.
+      * exists y. apply Z.eqb_neq in Hne. rewrite Hne. auto.
+    + exists y. apply Z.eqb_neq in Hne. rewrite Hne. auto.
+  - intros [d [Hd Hy]]. destruct (Z.eqb d a) eqn:Hda.
+    + apply Z.eqb_eq in Hda. subst d y. assert (Hm : memz a ds = true) by (apply memz_In; exact Hd).
+      rewrite Hm. split; [apply set_insert_In; left; reflexivity|congruence].
+    + apply Z.eqb_neq in Hda. subst y. split; [|exact Hda].
+      destruct (memz a ds); [apply set_insert_In; right; exact Hd|exact Hd].
+Qed.
+
+Lemma abs_rename : forall g a b, a <> b -> rg_eq (abs (rename_path g a b)) (r_rename (abs g) a b).
+Proof.
+  intros g a b Hab. split.
+  - intros y. cbn [abs V r_rename rename_path nodes]. rewrite map_nid_rename. tauto.
+  - intros [x y]. cbn [abs E r_rename rename_path nodes]. rewrite dedup_e_In.
+    change (In (x, y) (edges_of (map (rename_node a b) (nodes g))) <->
+            In (x, y) (map (fun e => (ren a b (fst e), ren a b (snd e))) (edges_of (nodes g)))).
+    rewrite edges_of_In, in_map_iff. split.
+    + intros [n [Hn [Hx Hy]]]. apply in_map_iff in Hn. destruct Hn as [m [Hm Hin]]. subst n.
+      cbn [rename_node nid ndeps] in Hx, Hy. apply (rename_deps_In a b _ y Hab) in Hy. destruct Hy as [d [Hd Hy]].
+      exists (nid m, d). cbn [fst snd]. split; [unfold ren at 1; rewrite Hx, Hy; reflexivity|].
+      apply edges_of_In. exists m. auto.
+    + intros [[u v] [He Hin]]. cbn [fst snd] in He. inversion He; subst x y. apply edges_of_In in Hin.
+      destruct Hin as [m [Hm [Hu Hv]]]. exists (rename_node a b m). split; [apply in_map; exact Hm|].
+      cbn [rename_node nid ndeps]. split; [subst u; reflexivity|]. apply (rename_deps_In a b _ _ Hab). exists v. auto.
+Qed.
+
+Lemma edges_of_perm : forall ns ns', Permutation ns ns' -> forall e, In e (edges_of ns) <-> In e (edges_of ns').
+Proof.
+  intros ns ns' Hp [a x]. rewrite !edges_of_In. split; intros [n [Hn H]]; exists n; (split; [|exact H]).
+  - eapply Permutation_in; eassumption.
+  - eapply Permutation_in; [apply Permutation_sym|]; eassumption.
+Qed.
+
+
+Lemma same_set_perm : forall a b, Permutation a b -> same_set a b = true.
+Proof.
+  intros a b Hp. unfold same_set. rewrite !andb_true_iff. split; [split|].
+  - apply forallb_forall. intros x Hx. apply memz_In. eapply Permutation_in; eassumption.
+  - apply forallb_forall. intros x Hx. apply memz_In. eapply Permutation_in; [apply Permutation_sym|]; eassumption.
+  - apply Nat.eqb_eq. apply Permutation_length. exact Hp.
+Qed.
+
+Lemma abs_sort : forall g x, index_inv g -> sort g = Ok x ->
+  rg_eq (abs (snd x)) (abs g) /\
+  judge_sort (abs g) (sort_code (fst x)) (map nid (nodes (snd x))) = true /\
+  (sort_expected (abs g) = sort_code (fst x) \/ (sort_expected (abs g) = -1 /\ fst x <> None)).
+Proof.
+  intros g x Hinv H. destruct (sort_spec g x Hinv H) as [[e [Ht ->]]|[ns [Ht [-> [Hp Hb]]]]]; cbn [fst snd].
+  - split; [split; intros y; tauto|]. unfold judge_sort, sort_expected. destruct e; cbn [sort_code].
+    + apply ProofsTsort.tsort_err_cyclic in Ht.
+      assert (Hc : has_cycle (abs g) = true) by (apply has_cycle_spec; exact Ht).
+      rewrite Hc. destruct (closed (abs g)); (split; [reflexivity|]); [left; reflexivity|right; split; [reflexivity|discriminate]].
+    + apply ProofsTsort.tsort_err_keynotfound in Ht. destruct Ht as [n [d [Hn [Hd Hnin]]]].
+      assert (Hc : closed (abs g) = false).
+      { destruct (closed (abs g)) eqn:Hc; [|reflexivity]. exfalso. apply Hnin.
+        apply (proj1 (closed_spec (abs g)) Hc (nid n) d). cbn [abs E]. apply edges_of_In. exists n. auto. }
+      rewrite Hc. destruct (has_cycle (abs g)); (split; [reflexivity|]); [right; split; [reflexivity|discriminate]|left; reflexivity].
+  - assert (Hids : Permutation (map nid ns) (map nid (nodes g))) by (apply Permutation_map; exact Hp).
+    split; [split|].
+    + intros y. cbn [abs V nodes]. split; intros Hy; (eapply Permutation_in; [|exact Hy]); [exact Hids|apply Permutation_sym; exact Hids].
+    + intros e. exact (edges_of_perm ns (nodes g) Hp e).
+    + assert (Hac : has_cycle (abs g) = false).
+      { destruct (has_cycle (abs g)) eqn:Hc; [|reflexivity]. apply has_cycle_spec in Hc. destruct Hc as [a Ha].
+        exfalso. exact (ProofsTsort.before_all_acyclic (nodes g) ns Hp Hb a Ha). }
+      assert (Hcl : closed (abs g) = true).
+      { apply closed_spec. intros a b He. cbn [abs E V] in *.
+        destruct (ProofsTsort.before_all_rank (nodes g) ns Hp Hb a b He) as [ka [kb [_ [Hkb _]]]].
+        apply position_Some_In in Hkb. eapply Permutation_in; eassumption. }
+      unfold judge_sort, sort_expected. rewrite Hac, Hcl. cbn [sort_code nodes].
+      split; [|left; reflexivity]. change (V (abs g)) with (map nid (nodes g)).
+      change (E (abs g)) with (edges_of (nodes g)). rewrite (same_set_perm _ _ Hids), Hb. reflexivity.
+Qed.
+
+(* ====================================================================== *)
+(* Refine.v *)
+Lemma bool_eq_iff : forall a b : bool, (a = true <-> b = true) -> a = b.
+Proof. intros [|] [|] H; try reflexivity; destruct H as [H1 H2]; [symmetry; apply H1|apply H2]; reflexivity. Qed.
+
+(* ================= one step of the refinement ================= *)
+Lemma abs_step_l : forall g o x, index_inv g -> op_ok g o = true -> step g o = Ok x ->
+  rg_eq (abs (snd x)) (snd (r_step (abs g) o)) /\
+  (fst (r_step (abs g) o) = fst x \/ (fst (r_step (abs g) o) = -1 /\ (fst x = 2 \/ fst x = 3))).
+Proof.
+  intros g o x Hinv Hok H. destruct o as [p|r d|p|a b|]; cbn [step] in H; cbn [r_step fst snd].
+  - inversion H; subst x. cbn [fst snd]. split; [apply abs_add; exact Hinv|left; reflexivity].
+  - destruct (inc_ref g r d) as [y| |] eqn:Hy; try discriminate. cbn [bind] in H. inversion H; subst x.
+    cbn [fst snd]. destruct (abs_inc g r d y Hinv Hy) as [Hc He]. split; [exact He|left].
+    rewrite <- Hc. destruct (fst y); reflexivity.
+  - destruct (remove g p) as [y| |] eqn:Hy; try discriminate. cbn [bind] in H. inversion H; subst x.
+    cbn [fst snd]. split; [eapply abs_remove; eassumption|left; reflexivity].
+  - inversion H; subst x. cbn [fst snd]. split; [|left; reflexivity]. apply abs_rename.
+    cbn [op_ok] in Hok. apply andb_true_iff in Hok. destruct Hok as [_ Hne].
+    apply negb_true_iff in Hne. apply Z.eqb_neq in Hne. exact Hne.
+  - destruct (sort g) as [y| |] eqn:Hy; try discriminate. cbn [bind] in H. inversion H; subst x.
+    cbn [fst snd]. destruct (abs_sort g y Hinv Hy) as [He [_ Hc]]. split; [exact He|].
+    fold (sort_code (fst y)). destruct Hc as [Hc|[Hc Hn]]; [left; exact Hc|right]. split; [exact Hc|].
+    destruct (fst y) as [[|]|]; [left; reflexivity|right; reflexivity|congruence].
+Qed.
+
+(* ================= queries ================= *)
+Lemma q_depends_on_agree : forall g a b, index_inv g -> depends_on g a b = Ok (q_depends_on (abs g) a b).
+Proof.
+  intros g a b Hinv. unfold depends_on, q_depends_on. rewrite (get_node_spec g a Hinv). cbn [bind]. f_equal.
+  apply bool_eq_iff. rewrite meme_In. change (E (abs g)) with (edges_of (nodes g)).
+  rewrite (edges_find _ a b (proj1 Hinv)). destruct (find_node (nodes g) a) as [n|].
+  - rewrite memz_In. split; [intros H; exists n; auto|]. intros [m [Hm Hb]]. inversion Hm; subst. exact Hb.
+  - split; [discriminate|]. intros [m [Hm _]]. discriminate.
+Qed.
+Lemma q_deep_agree : forall g a b, index_inv g -> deep_depends_on g a b = Ok (q_deep (abs g) a b).
+Proof.
+  intros g a b Hinv. destruct (deep_depends_on_total g b Hinv a) as [r [H Hr]]. rewrite H. f_equal.
+  apply bool_eq_iff. unfold q_deep. rewrite reachb_spec. exact Hr.
+Qed.
+Lemma q_children_agree : forall g p, set_eq (children g p) (q_children (abs g) p).
+Proof.
+  intros g p x. unfold children, q_children. rewrite !in_map_iff. split.
+  - intros [n [Hx Hn]]. apply filter_In in Hn. destruct Hn as [Hn Hp]. apply memz_In in Hp.
+    exists (x, p). split; [reflexivity|]. apply filter_In. cbn [snd]. split; [|apply Z.eqb_refl].
+    apply edges_of_In. exists n. auto.
+  - intros [[u v] [Hx He]]. apply filter_In in He. destruct He as [He Hv]. cbn [fst snd] in *.
+    apply Z.eqb_eq in Hv. subst u v. apply edges_of_In in He. destruct He as [n [Hn [Hid Hp]]].
+    exists n. split; [exact Hid|]. apply filter_In. split; [exact Hn|apply memz_In; exact Hp].
+Qed.
+Lemma q_parents_agree : forall g p, index_inv g ->
+  exists o, parents g p = Ok o /\ opt_set_eq o (q_parents (abs g) p).
+Proof.
+  intros g p Hinv. unfold parents, q_parents. rewrite (get_node_spec g p Hinv). cbn [bind].
+  eexists. split; [reflexivity|]. cbn [abs V E]. destruct (find_node (nodes g) p) as [n|] eqn:Hf; cbn [option_map].
+  - assert (Hm : memz p (map nid (nodes g)) = true).
+    { apply memz_In. apply find_node_Some in Hf. destruct Hf as [Hn <-]. apply in_map. exact Hn. }
+    rewrite Hm. cbn [opt_set_eq]. intros x. rewrite succs_In. symmetry.
+    exact (edges_found _ p n x (proj1 Hinv) Hf).
+  - apply find_node_None in Hf. apply memz_false in Hf. rewrite Hf. exact I.
+Qed.
+
+Lemma queries_agree_l : forall g, index_inv g ->
+  (forall a b, depends_on g a b = Ok (q_depends_on (abs g) a b)) /\
+  (forall a b, deep_depends_on g a b = Ok (q_deep (abs g) a b)) /\
+  (forall p, set_eq (children g p) (q_children (abs g) p)) /\
+  (forall p, exists o, parents g p = Ok o /\ opt_set_eq o (q_parents (abs g) p)).
+Proof.
+  intros g Hinv. split; [|split; [|split]].
+  - intros a b. apply q_depends_on_agree. exact Hinv.
+  - intros a b. apply q_deep_agree. exact Hinv.
+  - intros p. apply q_children_agree.
+  - intros p. apply q_parents_agree. exact Hinv.
+Qed.
+
+(* ================= inc_ref refuses exactly the cycle-closing edges ================= *)
+Lemma inc_ref_refuses_cycle_l : forall g r d, index_inv g ->
+  (forall g', inc_ref g r d = Ok (IncCycle, g') <->
+              (r <> d /\ reach (E (abs g)) d r /\ g' = add_node_if_none g r)) /\
+  (~ (r <> d /\ reach (E (abs g)) d r) ->
+     exists g2, inc_ref g r d = Ok (IncOk, g2) /\ rg_eq (abs g2) (snd (r_inc (abs g) r d))).
+Proof.
+  intros g r d Hinv. destruct (inc_ref_spec g r d Hinv) as [H1 [H2 H3]].
+  change (E (abs g)) with (edges_of (nodes g)). split.
+  - intros g'. split.
+    + intros H. destruct (Z.eq_dec r d) as [Heq|Hne]; [rewrite (H1 Heq) in H; discriminate|].
+      destruct (reach_dec (edges_of (nodes g)) d r) as [Hr|Hr].
+      * rewrite (H2 Hne Hr) in H. inversion H. auto.
+      * destruct (H3 Hne Hr) as [g2 [Hg2 _]]. rewrite Hg2 in H. discriminate.
+    + intros [Hne [Hr ->]]. apply H2; assumption.
+  - intros Hn. assert (Hex : exists g2, inc_ref g r d = Ok (IncOk, g2)).
+    { destruct (Z.eq_dec r d) as [Heq|Hne]; [eexists; apply H1; exact Heq|].
+      destruct (reach_dec (edges_of (nodes g)) d r) as [Hr|Hr]; [exfalso; apply Hn; auto|].
+      destruct (H3 Hne Hr) as [g2 [Hg2 _]]. exists g2. exact Hg2. }
+    destruct Hex as [g2 Hg2]. exists g2. split; [exact Hg2|].
+    exact (proj2 (abs_inc g r d _ Hinv Hg2)).
+Qed.
+
+(* ================= acyclicity ================= *)
+Lemma reach_add_edge : forall (EE E2 : list (Z * Z)) r d,
+  (forall e, In e E2 <-> e = (r, d) \/ In e EE) ->
+  forall x y, reach E2 x y -> reach EE x y \/ ((x = r \/ reach EE x r) /\ (d = y \/ reach EE d y)).
+Proof.
+  intros EE E2 r d He x y Hr. induction Hr as [a b Hab|a c b Hac Hcb IH].
+  - apply He in Hab. destruct Hab as [Hab|Hab].
+    + inversion Hab; subst. right. auto.
+    + left. apply reach_edge. exact Hab.
+  - apply He in Hac. destruct Hac as [Hac|Hac].
+    + inversion Hac; subst a c. right. split; [left; reflexivity|].
+      destruct IH as [IH|[_ IH]]; [right; exact IH|exact IH].
+    + destruct IH as [IH|[[IH|IH] IH2]].
+      * left. eapply reach_step; eassumption.
+      * subst c. right. split; [right; apply reach_edge; exact Hac|exact IH2].
+      * right. split; [right; eapply reach_step; eassumption|exact IH2].
+Qed.
+
+Lemma acyclic_add_edge : forall (EE E2 : list (Z * Z)) r d,
+  (forall e, In e E2 <-> e = (r, d) \/ In e EE) ->
+  acyclic EE -> r <> d -> ~ reach EE d r -> acyclic E2.
+Proof.
+  intros EE E2 r d He Hac Hne Hnr a Ha. destruct (reach_add_edge EE E2 r d He a a Ha) as [H|[[H1|H1] [H2|H2]]].
+  - exact (Hac a H).
+  - congruence.
+  - subst a. exact (Hnr H2).
+  - subst a. exact (Hnr H1).
+  - apply Hnr. eapply reach_trans; eassumption.
+Qed.
+
+Lemma acyclic_incl : forall E1 E2 : list (Z * Z), incl E2 E1 -> acyclic E1 -> acyclic E2.
+Proof. intros E1 E2 Hi Hac a Ha. apply (Hac a). eapply reach_mono; eassumption. Qed.
+
+Lemma acyclic_step : forall g o x, index_inv g -> acyclic (E (abs g)) ->
+  (match o with ORename _ _ => False | _ => True end) -> step g o = Ok x -> acyclic (E (abs (snd x))).
+Proof.
+  intros g o x Hinv Hac Ho H. change (E (abs g)) with (edges_of (nodes g)) in Hac.
+  destruct o as [p|r d|p|a b|]; cbn [step] in H; try contradiction.
+  - inversion H; subst x. cbn [snd]. change (acyclic (edges_of (nodes (add_node_if_none g p)))).
+    rewrite add_node_edges. exact Hac.
+  - destruct (inc_ref g r d) as [y| |] eqn:Hy; try discriminate. cbn [bind] in H. inversion H; subst x.
+    cbn [snd]. destruct (inc_ref_spec g r d Hinv) as [H1 [H2 H3]].
+    destruct (Z.eq_dec r d) as [Heq|Hne].
+    + rewrite (H1 Heq) in Hy. inversion Hy; subst y. cbn [snd].
+      change (acyclic (edges_of (nodes (add_node_if_none g r)))). rewrite add_node_edges. exact Hac.
+    + destruct (reach_dec (edges_of (nodes g)) d r) as [Hr|Hr].
+      * rewrite (H2 Hne Hr) in Hy. inversion Hy; subst y. cbn [snd].
+        change (acyclic (edges_of (nodes (add_node_if_none g r)))). rewrite add_node_edges. exact Hac.
+      * destruct (H3 Hne Hr) as [g2 [Hg2 [_ [_ He]]]]. rewrite Hg2 in Hy. inversion Hy; subst y. cbn [snd].
+        exact (acyclic_add_edge _ _ r d He Hac Hne Hr).
+  - destruct (remove g p) as [y| |] eqn:Hy; try discriminate. cbn [bind] in H. inversion H; subst x.
+    cbn [snd]. destruct (abs_remove g p y Hinv Hy) as [_ He]. eapply acyclic_incl; [|exact Hac].
+    intros e Hin. apply He in Hin. cbn [r_remove E] in Hin. apply filter_In in Hin. exact (proj1 Hin).
+  - destruct (sort g) as [y| |] eqn:Hy; try discriminate. cbn [bind] in H. inversion H; subst x.
+    cbn [snd]. destruct (abs_sort g y Hinv Hy) as [[_ He] _]. eapply acyclic_incl; [|exact Hac].
+    intros e Hin. apply He. exact Hin.
+Qed.
+
+Lemma acyclic_history : forall os g g', index_inv g -> acyclic (E (abs g)) -> no_rename os = true ->
+  run_ops g os = Ok g' -> acyclic (E (abs g')).
+Proof.
+  induction os as [|o os IH]; intros g g' Hinv Hac Hnr H; cbn [run_ops] in H.
+  - inversion H; subst g'. exact Hac.
+  - cbn [no_rename forallb] in Hnr. apply andb_true_iff in Hnr. destruct Hnr as [Ho Hnr].
+    destruct (step g o) as [x| |] eqn:Hx; try discriminate. cbn [bind] in H.
+    assert (Hok : op_ok g o = true) by (destruct o; try reflexivity; discriminate).
+    apply (IH (snd x) g'); [eapply index_inv_step; eassumption| |exact Hnr|exact H].
+    eapply acyclic_step; [exact Hinv|exact Hac| |exact Hx]. destruct o; try exact I. discriminate.
+Qed.
+
+Lemma acyclic_empty : acyclic (E (abs empty)).
+Proof. intros a Ha. cbn in Ha. inversion Ha as [? ? H|? ? ? H _]; destruct H. Qed.
+
+Lemma acyclic_inv_l : forall os g, no_rename os = true -> run_ops empty os = Ok g -> acyclic (E (abs g)).
+Proof. intros os g Hnr H. eapply acyclic_history; [apply index_inv_empty|apply acyclic_empty|exact Hnr|exact H]. Qed.
